@@ -361,8 +361,11 @@ CHECKS["C10"] = {
         {"name": "strings", "pkg": "imap/command", "pkgname": "command", "entry": "VerifC10Strings", "files": C10_FILES,
          "params": {"quick": grid(cmd=[1], symcase=[1], symtag=[0], len=[1], chunked=[0]) + grid(cmd=[1], symcase=[0], symtag=[1], len=[1], chunked=[0]) + grid(cmd=[1], symcase=[0], symtag=[0], len=[1, 2, 3], chunked=[0]) + grid(cmd=[0], symcase=[0], symtag=[0], len=[1], chunked=[0]) + grid(cmd=[8], symcase=[0], symtag=[0], len=[1], chunked=[0], bigset=[0, 1]) + grid(cmd=[1], symcase=[0], symtag=[0], len=[2], chunked=[1]), "thorough": grid(cmd=list(range(11)), symcase=[1], symtag=[0, 1], len=[1], chunked=[0]) + grid(cmd=[0, 1, 7, 8, 10], symcase=[0], symtag=[0], len=[2, 3], chunked=[0, 1]) + grid(cmd=[1], symcase=[0], symtag=[0], len=[5], chunked=[0, 1]) + grid(cmd=[8, 9], symcase=[0], symtag=[0], len=[1], chunked=[0], bigset=[1])},
          "summarise": SCAN_SUMMARISE, "cover": []},
+        {"name": "fetchlists", "pkg": "imap/command", "pkgname": "command", "entry": "VerifC10Fetch", "files": C10_FILES,
+         "params": {"quick": grid(natt=[2], fam=[2], symcase=[0]), "thorough": grid(natt=[3], fam=[2], symcase=[0])},
+         "summarise": SCAN_SUMMARISE, "cover": []},
         {"name": "fetch", "pkg": "imap/command", "pkgname": "command", "entry": "VerifC10Fetch", "files": C10_FILES,
-         "params": {"quick": grid(natt=[2], fam=[2], symcase=[0]) + grid(natt=[0, 1], fam=[0], symcase=[1]) + grid(natt=[1], fam=[1], flen=[0], symcase=[1]), "thorough": grid(natt=[0, 1], fam=[0], symcase=[1], symset=[0, 1]) + grid(natt=[1], fam=[1], flen=[0, 1, 2], symcase=[0, 1]) + grid(natt=[2, 3], fam=[2], symcase=[0])},
+         "params": {"quick": grid(natt=[0, 1], fam=[0], symcase=[1]) + grid(natt=[1], fam=[1], flen=[0], symcase=[1]), "thorough": grid(natt=[0, 1], fam=[0], symcase=[1], symset=[0, 1]) + grid(natt=[1], fam=[1], flen=[0, 1, 2], symcase=[0, 1])},
          "summarise": SCAN_SUMMARISE, "cover": []},
         {"name": "store", "pkg": "imap/command", "pkgname": "command", "entry": "VerifC10Store", "files": C10_FILES,
          "params": {"quick": grid(nflags=[0, 1], symcase=[1]) + grid(nflags=[2], symcase=[0]), "thorough": grid(nflags=[0, 1, 2], symcase=[1], symset=[0, 1]) + grid(nflags=[3], symcase=[0])},
